@@ -420,7 +420,9 @@ class IfExpressionParser:
                 ('||', 2, pyparsing.opAssoc.LEFT,  infixBinaryOp(BinaryBoolOperator))
             ])
 
-        self.__ifgrammer = predExpr
+        # Do not let pyparsing expand tabs: the replacement depends on the
+        # column and would change the content of string literals.
+        self.__ifgrammer = predExpr.parse_with_tabs()
 
     def parseExpression(self, expression):
         try:
